@@ -62,6 +62,8 @@ class SQLiteValue(Value):
             return self.quote_str(str(value))
         if isinstance(value, datetime.timedelta):
             return repr(value.total_seconds() / (24 * 60 * 60))
+        if isinstance(value, datetime.time):
+            return self.quote_str(value.isoformat())
         return Value.__str__(self)
 
 class SQLiteBuilder(SQLBuilder):
